@@ -19,7 +19,8 @@ RULE = ('the same public calls (estimate_markov_model, dynamical_coring, md wait
         'integers/labels identical, floats within 1e-12 (1e-9 across thread counts), errors of the same '
         'kind. Non-trivial: >= 2 trajectories and a non-error result, or an error in all configurations.'
         ' Added classes: float32 and integer matrices for row_normalize_matrix, one contingency cell with > 65535 frames, 32..200 trajectories (one without a core), search values outside the range of a narrow array / non-integral.'
-        ' Later: Fortran-ordered / transposed matrices for matrix_power and the ergodicity tests, basin labels >= 64 next to a trajectory with small labels only, macro data shorter than micro data.')
+        ' Later: Fortran-ordered / transposed matrices for matrix_power and the ergodicity tests, basin labels >= 64 next to a trajectory with small labels only, macro data shorter than micro data.'
+        ' Fifth/sixth batch: one StateTraj object over a sequence of calls, index lists differing in length by > 64x, a lag no trajectory can serve.')
 TRUSTED = ['numba code generation and scheduling (runtime; the model cannot exhibit a miscompilation, only its effect)']
 ASSUMPTIONS = []
 BATCH = 60
@@ -65,6 +66,19 @@ def gen(rng, tier):
         N = sum(len(t) for t in trajs)
         yield {'trajs': trajs, 'lag': 3, 'S': [present[0]], 'F': [present[-1]], 'dtype': 'int64',
                'other': [rng.choice(present) for _ in range(N)], 'M': [['1', '2'], ['3', '4']], 'alpha': akind + '+many-trajs', 'big': True}
+    for _ in range(5 if tier == 'quick' else 60):
+        # a lag time that no trajectory of the set can serve (every trajectory at most lag frames long): no pairs at all,
+        # the same all-zero model with and without the JIT
+        labs, akind = G.alphabet(rng, k=rng.randint(2, 3))
+        lag = rng.choice([2, 3, 4, 5])
+        trajs = [G.traj(rng, labs, rng.randint(1, lag), sticky=0.3) for _ in range(rng.choice([1, 2, 3]))]
+        trajs[0] = (labs + trajs[0])[:lag] if lag >= len(labs) else trajs[0]
+        present = sorted({v for t in trajs for v in t})
+        if len(present) < 2:
+            continue
+        N = sum(len(t) for t in trajs)
+        yield {'trajs': trajs, 'lag': lag, 'S': [present[0]], 'F': [present[-1]], 'dtype': 'int64', 'other': [rng.choice(present) for _ in range(N)],
+               'M': [['1', '2'], ['3', '4']], 'alpha': akind + '+lag-beyond-all', 'big': True}
     for _ in range(6 if tier == 'quick' else 80):
         # strongly UNBALANCED populations: a state seen once or twice among 2^k +- a few frames of another one (index
         # lists whose lengths differ by far more than a factor 64), and a single basin state among > 64 states
